@@ -17,30 +17,56 @@ CFG = {
         "Clear = 0, keys strictly ascending so Range/Keys ascend, the lazy constructor runs exactly once per successful insert "
         "and never otherwise; (2) the history checker lin_check (DFS over minimal pending operations with a dead-configuration "
         "cache) is sound and complete for linearizability w.r.t. the map and set specs, cutting at quiescent points is exact "
-        "(lin_segments), and range_ok_b decides the Range clause; (3) for an executable small-step model of the optimistic bottom-lane "
-        "algorithm (LazySkip.v: find, lock pred, validate, link, fullyLinked; mark under lock, unlink; contains reads flags), for all "
-        "programs and ALL schedules of its atomic steps: next pointers always lead to strictly larger keys, so the reachable chain is "
-        "strictly sorted with at most one node per key, and the abstract set {key | fullyLinked, not marked} changes only at the "
-        "fullyLinked := true step of an Add and the marked := true step of a Remove. NOT proved: that the concurrent Go code is linearizable. Real "
-        "interleavings are sampled, not proved: every check run records small concurrent histories of the real code (2-8 "
+        "(lin_segments), and range_ok_b decides the Range clause; (3) for an executable small-step PROTOCOL MODEL of the optimistic "
+        "bottom-lane algorithm (LazySkip.v: find, lock pred, validate, link, fullyLinked; mark under lock, unlink; contains reads "
+        "flags), for all programs and ALL schedules of its atomic steps: (a) next pointers always lead to strictly larger keys, so "
+        "the reachable chain is strictly sorted with at most one node per key, and the abstract set {key | fullyLinked, not marked} "
+        "changes only at the fullyLinked := true step of an Add and the marked := true step of a Remove; (b) lock discipline: a "
+        "locked node is locked by exactly the thread whose program counter holds it, a lock is only released by its holder, no step "
+        "writes a node's next pointer without holding that node's lock (and the node is unmarked), facts validated under a lock stay "
+        "true while it is held, every unmarked node is reachable from the header (C04_lazyskip_inv2 ..), and the system never "
+        "deadlocks: in every reachable state all threads have finished or an unfinished thread has a state-changing step (lock "
+        "waits descend strictly in key order; spinning Adds wait for a creator / remover that can move); (c) a successful Add takes "
+        "effect at its fullyLinked step with the key absent just before, a failing Add reads the key present, a successful Remove "
+        "takes effect at its marking step, and every unsuccessful Remove / Contains had the key absent at some moment inside its "
+        "interval (hindsight lemma), so every completed operation has a linearization point inside its interval "
+        "(C04_lazyskip_lin_points); (d) LINEARIZABILITY OF THE MODEL: the recorded history (invocation/response = scheduler step "
+        "indices) of every complete execution, any programs over any keys, any schedule, is linearizable w.r.t. the set "
+        "specification in exactly the sense of Common/Hist.v that the verified checker decides on the real histories "
+        "(C04_lazyskip_linearizable), hence exactly one of several racing Adds of one key reports success and exactly one of several "
+        "racing Removes of a key added before reports success (C04_lazyskip_one_add_wins / _one_remove_wins); (4) for the protocol "
+        "model extended with the VALUE field (LazyMap.v: Store on an existing key locks the node, tests marked, waits for fullyLinked, "
+        "writes; LoadAndDelete marks under the node lock and reads the value after unlocking; Load): the value of a node is written "
+        "only under its lock while it is linked and unmarked, is frozen once the node is marked, a LoadAndDelete returns the value its "
+        "victim had when it marked it (the last value stored: no lost update), a Store's pair is in the abstract map right after its "
+        "write; and the PRE-REPAIR Store (no node lock) is refuted: a concrete schedule stores into a marked node and the resulting "
+        "complete history is rejected by the verified checker (C04_lazymap_prerepair_refuted / _history_rejected). NOT proved: that "
+        "the concurrent GO CODE is linearizable -- the protocol models are hand-written from the code and not tied to it by any "
+        "theorem. Real interleavings are sampled: every check run records small concurrent histories of the real code (2-8 "
         "goroutines, 1-3 keys, 4-8 operations each, fresh structure per round, quiescent Len/Keys/Values/Empty appended) and "
         "each recorded history is decided inside Coq by the verified lin_check / range_ok_b; the sequential model is tied to "
         "the code on every run by traces compared result-by-result with the Spec (kind 2) and result+lane/level/highestLevel/"
         "length dump with the Model (kind 1)."
     ),
     "level_note": (
-        "Concurrency is PARTIAL: histories are samples of the Go scheduler, no theorem covers the optimistic find/lock/validate/"
-        "link protocol of the Go code itself: LazySkip.v is a hand-written protocol model with no run-time tie to the code (beyond the "
-        "histories), and for it only sortedness/uniqueness and the abs-set frame are proved -- NOT that a successful Add found the key "
-        "absent, that exactly one of several racing same-key Adds/Removes succeeds, lock ownership, or that linearization points lie "
-        "inside the intervals (those need the full lazy-list argument). Also not covered: upper-lane linking order, the highestLevel CAS, "
-        "or the memory model. Seeded in-code yield points were NOT added: a `verifYield(k)` line inside Store/Delete/... would "
+        "Concurrency of the Go code is PARTIAL: histories are samples of the Go scheduler. The protocol theorems are about the "
+        "models LazySkip.v / LazyMap.v, which have no run-time tie to the code (beyond the histories): one atomic model step = one "
+        "shared-memory access, EXCEPT that reading a next pointer, the key of the node it leads to and (Contains, the found-node test "
+        "of Add) that node's flags is one step; only lane 0 is modelled (no upper-lane linking order, no highestLevel CAS, no length "
+        "counter, no Range), sequentially consistent memory, a lock acquisition that fails is a no-op step. The model's Remove "
+        "re-searches from the header when its marked victim is not found where expected; the progress proof shows that this "
+        "defensive branch is never taken. Linearizability of LazySkip is proved for the SET operations Add/Remove/Contains (all "
+        "keys); for the value model LazyMap the lock/flag discipline and the no-lost-update facts are proved, but NOT full "
+        "linearizability of Store/Load/LoadAndDelete w.r.t. the map spec, and LoadOrStore(Lazy)/Delete/Range are not in it. "
+        "C04_lazyskip_one_remove_wins assumes the key is added by the only Add of that key, which responds before every Remove of it is "
+        "invoked. Seeded in-code yield points were NOT added: a `verifYield(k)` line inside Store/Delete/... would "
         "touch existing lines, which hooks must not do; scheduling is perturbed from outside instead (GOMAXPROCS cycling "
         "1/2/4/16, a spinning per-operation barrier that releases all goroutines together in 3 of 4 rounds, seeded "
         "runtime.Gosched()/busy spins between operations, busy co-runners, and a second run of the concurrent harness built with "
         "-race whose slowdown widens the windows). Stamps: invocation before the call, response after it, one atomic counter, so a "
         "linearizable execution is never rejected. Clear is not concurrency-safe by construction (plain stores to header/"
-        "highestLevel) and is exercised sequentially only. Range under concurrency is judged by RangeOK (strictly ascending, no "
+        "highestLevel) and is exercised sequentially only (incl. the deterministic clear-tall sequences: Clear, then inserts with "
+        "towers up to maxLevel). Range under concurrency is judged by RangeOK (strictly ascending, no "
         "repeat, every key with an insert/observation completed before the call and no overlapping removal is visited, every "
         "visited key was inserted by an operation invoked before the response); visited values are not judged. The sequential "
         "model keeps lane 0 only (a node of height h is on lanes 0..h-1 by construction; the harness checks the real lanes "
@@ -54,7 +80,15 @@ CFG = {
     "theorems": [("C04.Props", ["C04_seq_map", "C04_seq_set", "C04_seq_map_state", "C04_seq_set_state", "C04_len_after_clear",
                                 "C04_lazy_once", "C04_spec_map_laws", "C04_lin_check_map", "C04_lin_check_set",
                                 "C04_lin_segments", "C04_range_ok_b",
-                                "C04_lazyskip_inv", "C04_lazyskip_sorted", "C04_lazyskip_abs_frame"])],
+                                "C04_lazyskip_inv", "C04_lazyskip_sorted", "C04_lazyskip_abs_frame",
+                                "C04_lazyskip_inv2", "C04_lazyskip_lock_holder", "C04_lazyskip_lock_release",
+                                "C04_lazyskip_next_under_lock", "C04_lazyskip_no_deadlock",
+                                "C04_lazyskip_add_effect", "C04_lazyskip_add_fail", "C04_lazyskip_remove_effect",
+                                "C04_lazyskip_lin_points", "C04_lazyskip_linearizable",
+                                "C04_lazyskip_one_add_wins", "C04_lazyskip_one_remove_wins",
+                                "C04_lazymap_lock_owner", "C04_lazymap_value_write", "C04_lazymap_marked_frozen",
+                                "C04_lazymap_lad_returns_marked_value", "C04_lazymap_store_visible",
+                                "C04_lazymap_prerepair_refuted", "C04_lazymap_prerepair_history_rejected"])],
     "trusted": [
         "height oracle: node heights are premises of the refinement theorems (>= 1, what randomLevel() returns); the harness "
         "injects them through the reassignable fastrand.Uint32 and reads them back through the verif accessor VerifShape",
@@ -65,8 +99,9 @@ CFG = {
     ],
     "modelled": [
         "Go scheduler, memory model, sync.Mutex, sync/atomic: exercised, not modelled",
-        "optimistic find/lock/validate/link protocol, marked/fullyLinked flags, upper lanes, highestLevel CAS: exercised by the "
-        "concurrent histories only (no protocol theorem)",
+        "optimistic find/lock/validate/link protocol, marked/fullyLinked flags: protocol models LazySkip.v / LazyMap.v (bottom lane, "
+        "hand-written, theorems over all schedules of the MODEL); the Go code itself, upper lanes and the highestLevel CAS are "
+        "exercised by the concurrent histories only",
         "runtime.fastrand behind randomLevel(): replaced by an oracle in sequential traces, left alone in concurrent rounds",
     ],
     "assumptions": [
